@@ -192,6 +192,7 @@ func c06Handwritten() []string {
 		"if true // c1\n    print 1\nelse if false // c2\n    print 2\nelse // c3\n    print 3\nend // c4\nwhile false // w\n    print 4\nend // we\nfor i := range 1 // f\n    print i\nend // fe\n",
 		"func f:num a:num b:[]string c:{}any // sig\n    print b c // use\n    return a // r\nend\non key k:string // h\n    print k\nend\nprint (f 1 [] {}) // call\n",
 		"func v:num c:{}any... // variadic sig\n    return (len c) // r\nend\nfunc w   n:num...\n    print   n\nend\nfunc   u:[]any  a:any...\n    return a\nend\nprint (v) (v {}) (v {} {a:1}) (u 1 \"a\" [])\nw\nw 1   2\n",
+		"// 100% sure %d %s %%\nm := { // 50% of b\n    a: 1 // 10%\n    // %v %!d(MISSING) %\n    b: 2 // %%\n}\narr := [ // 5%\n    1 // %d\n    // 100%\n    2\n]\nfunc f // %s\n    print m arr // %v\n    // %\nend // %x\nf // %\nif true // %t\n    print 1 // 1%\nelse // %e\n    print 2\nend // 2%\n",
 		"a := [ // first\n    // second\n    1\n]\nb := [\n    // only\n]\nc := { // c1\n    // c2\n    k: 1\n}\nd := [ // x\n    1 2 // y\n    // z\n]\nprint a b c d\n",
 		"x := 1\nprint x+1 x-1 -x (x + 1) (x - -x) [x x+1] {a:x b:-x}\nprint x*2+1 (x*(2+1)) !(x == 1) (x < 2 and x > 0 or true)\ns := \"a\"\nprint s[0] s[0:1] s[:1] s[1:] s[:] \"a\"[0] [1 2][1:]\n",
 		"x:any\nx = 1\nprint x.(num) (x.(num) + 1)\nm := {a:{b:[1 2]}}\nprint m.a.b[0] m[\"a\"][\"b\"][1]\nm.a.b[0] = 3\narr:[]{}num\narr = [{a:1}]\narr[0].a = 2\nprint arr\n",
@@ -361,7 +362,7 @@ func commentVariants(rng *rand.Rand, src string) []string {
 		if strings.TrimSpace(l) == "" || strings.Contains(l, "//") || strings.HasSuffix(strings.TrimSpace(l), "[") || strings.HasSuffix(strings.TrimSpace(l), "{") {
 			a = append(a, l)
 		} else {
-			a = append(a, l+" // c"+fmt.Sprint(i))
+			a = append(a, l+" // c"+fmt.Sprint(i)+[]string{"", " 100%", " %d %s %v", " %%", " \\n \\t", " \"q\" 'r' `b`", " // nested", " é世🙂"}[i%8])
 		}
 	}
 	out = append(out, strings.Join(a, "\n")+"\n")
@@ -371,7 +372,7 @@ func commentVariants(rng *rand.Rand, src string) []string {
 		t := strings.TrimLeft(l, " ")
 		pad := l[:len(l)-len(t)]
 		if i%2 == 0 {
-			b = append(b, pad+"// before "+fmt.Sprint(i))
+			b = append(b, pad+"// before "+fmt.Sprint(i)+[]string{"", " 10%", " %!s(MISSING) %", " 50% of %v"}[i%4])
 		} else {
 			b = append(b, "")
 		}
